@@ -580,6 +580,82 @@ func unlock() {
 	F.set("ul_retry_context", b(ctx))
 }
 
+// parallelisation.RunActionWithTimeoutAndCancelStore: LockWithTimeout hands it the lock's OWN cancel store, which also holds
+// the cancel functions of the heartbeat writers started through the same lock object.
+func runner(repo string) {
+	path := filepath.Join(repo, "utils", "parallelisation", "parallelisation.go")
+	f, err := parser.ParseFile(fset, path, nil, 0)
+	if err != nil {
+		fmt.Fprintln(os.Stderr, "lock2coq:", err)
+		os.Exit(1)
+	}
+	var fd *ast.FuncDecl
+	for _, d := range f.Decls {
+		if x, ok := d.(*ast.FuncDecl); ok && x.Name.Name == "RunActionWithTimeoutAndCancelStore" && x.Body != nil {
+			fd = x
+		}
+	}
+	if fd == nil {
+		fmt.Fprintln(os.Stderr, "lock2coq: RunActionWithTimeoutAndCancelStore not found")
+		os.Exit(1)
+	}
+	l := fd.Body.List
+	exp := []string{
+		"err := DetermineContextError(ctx)",
+		"if err != nil { return err }",
+		"timeoutContext, timeoutCancel := context.WithTimeout(ctx, timeout)",
+		"store.RegisterCancelFunction(timeoutCancel)",
+		"defer timeoutCancel()",
+		"cancelCtx, actionCancel := context.WithCancel(ctx)",
+		"store.RegisterCancelFunction(actionCancel)",
+		"channel := make(chan error, 1)",
+		"go func(actionCtx context.Context, action func(context.Context) error) { channel <- action(actionCtx) }(cancelCtx, blockingAction)",
+	}
+	nstmts("RunActionWithTimeoutAndCancelStore", l, len(exp)+1)
+	for i, e := range exp {
+		want(l[i], src(l[i]), e, fmt.Sprintf("RunActionWithTimeoutAndCancelStore[%d]", i))
+	}
+	F.set("lwt_registers_cancels_in_store", "true")
+	sel, ok := l[len(exp)].(*ast.SelectStmt)
+	if !ok || len(sel.Body.List) != 2 {
+		die(l[len(exp)], "RunActionWithTimeoutAndCancelStore: select with two cases expected")
+	}
+	for _, c := range sel.Body.List {
+		cc := c.(*ast.CommClause)
+		var body []string
+		for _, st := range cc.Body {
+			body = append(body, src(st))
+		}
+		joined := strings.Join(body, " ; ")
+		switch src(cc.Comm) {
+		case "err = <-channel":
+			switch joined {
+			case "if err != nil { actionCancel() <-cancelCtx.Done() } ; err2 := DetermineContextError(timeoutContext) ; if err2 != nil { return err2 } ; timeoutCancel() ; return err":
+				F.set("lwt_success_keeps_action_context", "true")
+			default:
+				if strings.Contains(joined, "store.Cancel()") || strings.Count(joined, "actionCancel()") != 1 {
+					F.set("lwt_success_keeps_action_context", "false")
+				} else {
+					die(cc, "RunActionWithTimeoutAndCancelStore: completion branch: %s", joined)
+				}
+			}
+		case "<-timeoutContext.Done()":
+			switch joined {
+			case "actionCancel() ; timeoutCancel() ; <-cancelCtx.Done() ; <-channel ; return DetermineContextError(timeoutContext)":
+				F.set("lwt_timeout_cancels_store", "false")
+			case "store.Cancel() ; <-cancelCtx.Done() ; <-channel ; return DetermineContextError(timeoutContext)",
+				"store.Cancel() ; actionCancel() ; timeoutCancel() ; <-cancelCtx.Done() ; <-channel ; return DetermineContextError(timeoutContext)",
+				"actionCancel() ; timeoutCancel() ; store.Cancel() ; <-cancelCtx.Done() ; <-channel ; return DetermineContextError(timeoutContext)":
+				F.set("lwt_timeout_cancels_store", "true")
+			default:
+				die(cc, "RunActionWithTimeoutAndCancelStore: timeout branch: %s", joined)
+			}
+		default:
+			die(cc, "RunActionWithTimeoutAndCancelStore: select case: %s", src(cc.Comm))
+		}
+	}
+}
+
 func main() {
 	if len(os.Args) != 2 {
 		fmt.Fprintln(os.Stderr, "usage: lock2coq <out.v>")
@@ -618,11 +694,12 @@ func main() {
 	isStaleFns()
 	lock()
 	lockWithTimeout()
+	runner(repo)
 	unlock()
 	heartBeat()
 
 	var out bytes.Buffer
-	out.WriteString("(* GENERATED by translator-c01/cmd/lock2coq from utils/filesystem/lockfile.go of the repository's working tree —\n   DO NOT EDIT; regenerated on every run of ./check C01. *)\nFrom Coq Require Import List.\nImport ListNotations.\nFrom GU Require Import C01.Facts C01.Model.\n\nDefinition facts : lockfacts := {|\n")
+	out.WriteString("(* GENERATED by translator-c01/cmd/lock2coq from utils/filesystem/lockfile.go and utils/parallelisation/parallelisation.go\n   (RunActionWithTimeoutAndCancelStore) of the repository's working tree —\n   DO NOT EDIT; regenerated on every run of ./check C01. *)\nFrom Coq Require Import List.\nImport ListNotations.\nFrom GU Require Import C01.Facts C01.Model.\n\nDefinition facts : lockfacts := {|\n")
 	for i, kv := range F.kv {
 		sep := ";"
 		if i == len(F.kv)-1 {
